@@ -35,6 +35,13 @@ def check(run, project):
     t5(run, L)
     t6(run, project, L, facets=None)
     t7(run, project, L)
+    # T8 (= C01-W7): the selector -> member mapping the decoder actually USES is the pinned one (the last member listed for a
+    # selector value wins, None is the wildcard) - however the union walker obtains it: an inverted table, a search, a
+    # cached selection object
+    from ..report import RuleView
+    from ..roles import MarshalRoles
+    from . import c01
+    c01.w7(RuleView(run, "W7", "T8"), MarshalRoles(project), L)
     run.floor("T1", 4 * 100, "table entries")
     run.floor("T3", 20, "list fields")
     run.floor("T4", 20, "union fields")
